@@ -13,6 +13,7 @@ package main
 //       idleclose  one exchange first, the server closes the idle connection, then as `app`
 //       e500       (DoH) HTTP status 500
 //       garok      (udp) an undecodable datagram, then the reply
+//       tcsil      (udp) a truncated reply (after tcdelay ms), then a TCP side that reads the query and never answers
 //       wstall     (pipelined tcp/tls) the server never reads; `n` large exchanges fill the socket buffers
 //   out  : as in component "retry"; att = victim queries that reached the server, dials = connections
 //          accepted during the victim exchange ("-" where the server cannot see them)
@@ -22,6 +23,7 @@ import (
 	"crypto/tls"
 	"encoding/base64"
 	"fmt"
+	"io"
 	"math/rand"
 	"net"
 	"net/http"
@@ -513,6 +515,26 @@ func c14udpOnce(m map[string]string) c14outcome {
 	addr := pc.LocalAddr().String()
 	sv := c14serverScript(script)
 	var vq atomic.Int64
+	if fault == "tcsil" {
+		// the victim's reply is truncated (TC, after tcdelay ms) and the TCP side of the same address accepts,
+		// reads the query and never answers: the retry over TCP is part of the same exchange, so the exchange
+		// still ends by the caller's deadline
+		tl, err := net.Listen("tcp", addr)
+		if err != nil {
+			out.setupFailed = "tcp-listen"
+			return out
+		}
+		defer tl.Close()
+		go func() {
+			for {
+				c, err := tl.Accept()
+				if err != nil {
+					return
+				}
+				go func() { defer c.Close(); io.Copy(io.Discard, c) }()
+			}
+		}()
+	}
 	if fault == "refuse" {
 		pc.Close()
 	} else {
@@ -540,6 +562,9 @@ func c14udpOnce(m map[string]string) c14outcome {
 					if fault == "garok" || fault == "gar" {
 						beh = fault
 					}
+					if fault == "tcsil" {
+						beh = "tc"
+					}
 				}
 				switch beh {
 				case "ok":
@@ -551,6 +576,11 @@ func c14udpOnce(m map[string]string) c14outcome {
 					pc.WriteToUDP(c14reply(q), from)
 				case "half":
 					pc.WriteToUDP(c14reply(q)[:7], from)
+				case "tc":
+					rb := c14reply(q)
+					rb[2] |= 0x02
+					d := time.Duration(atoi(m["tcdelay"])) * time.Millisecond
+					go func() { time.Sleep(d); pc.WriteToUDP(rb, from) }()
 				}
 			}
 		}()
@@ -808,6 +838,7 @@ func c14matrix(tr string) []c14fault {
 		add("garok", "fok", "a") // … and does not end the exchange
 		add("pooled", "pok", "a")
 		add("pooled", "psil", "a")
+		add("tcsil", "fsil", "-") // truncated reply, then a TCP side that never answers: still the caller's deadline
 	case "http", "https":
 		add("app", "fok", "-")
 		add("refuse", "gR", "-")
@@ -872,6 +903,9 @@ func c14matrix(tr string) []c14fault {
 func c14faultCase(r *rand.Rand, tr string, f c14fault) c14case {
 	script := strings.Split(f.script, ",")
 	cs := fmt.Sprintf("tr=%s fault=%s loop=%s script=%s obs=%s dl=%d", tr, f.fault, c14loopOf(tr), f.script, f.obs, c14dlFor(r, script))
+	if f.fault == "tcsil" {
+		cs += fmt.Sprintf(" tcdelay=%d", []int{0, 40, 150}[r.Intn(3)])
+	}
 	return c14case{cs, tr + "/" + f.fault + "/" + f.script}
 }
 
@@ -886,7 +920,7 @@ func c14faultsGen(r *rand.Rand, thorough bool, emit func(c, cat string)) {
 			ns := 0
 			off := r.Intn(3)
 			for _, f := range mx {
-				if c14scriptSilent(strings.Split(f.script, ",")) {
+				if f.fault != "tcsil" && c14scriptSilent(strings.Split(f.script, ",")) {
 					ns++
 					if (ns+off)%3 != 0 {
 						continue
